@@ -620,7 +620,7 @@ impl Scenario for ArtefactMedium {
         }
     }
 
-    fn generate(&self, rng: &mut Rng, tier: Tier) -> Plan {
+    fn generate(&self, rng: &mut Rng, tier: Tier, _index: u64) -> Plan {
         let kind = *rng.pick(KINDS);
         let deep = if rng.chance(1, 40) {
             if tier == Tier::Thorough && rng.chance(1, 4) {
